@@ -5,5 +5,7 @@ import "hash/fnv"
 func GetShardID(value string, shardCount int) int {
 	h := fnv.New32a()
 	h.Write([]byte(value))
-	return int(h.Sum32() % uint32(shardCount))
+	// in 64 bits: converting shardCount to uint32 truncates counts that do not fit 32 bits (2^32 becomes 0 and the
+	// modulo panics, 2^32+5 becomes 5)
+	return int(uint64(h.Sum32()) % uint64(shardCount))
 }
